@@ -9,8 +9,9 @@ from .. import diff, runner
 from ..gen.progs import ProgGen
 from ..gen.timegen import TimeGen
 from ..model import ast as A
+from ..gen import memprogs
 from ..monitors.guards import GuardMonitor
-from ..svm.vm import FAULT_FLAGS, VM, Outcome
+from ..svm.vm import FAULT_FLAGS, VM, Monitor, Outcome
 from ..svm.asm import assemble
 from . import common
 
@@ -18,7 +19,8 @@ PROPERTY = 'C15'
 RULE = ('random sequential, deep and time-travel programs with inputs, word sizes 2,3,4, generous stack: the checked '
         'build is run first; if its committed timeline carries no fault flag the unchecked build of the same source must '
         'produce the identical timeline; non-trivial = the checked run executed at least one index, division or length '
-        'guard or a protected return besides the function-entry guards; distinct by hash of (source, args, word)')
+        'guard or a protected return besides the function-entry guards; distinct by hash of (source, args, word); a third of the pairs and all memory templates '
+        '(arrays live across loops, early exits and defeat) are compared again at the smallest stacks at which the checked build explores no fault on any timeline')
 ASSUMPTIONS = common.ISA_ASSUMPTIONS[:3]
 REQUIRED_HIDC_FUNCTIONS = ['codegen/generator:CodeGen.check_index', 'codegen/generator:CodeGen.arith_op_reg_arg']     # M-COV: deciding code never entered => inconclusive
 MIN_NONTRIVIAL = {'quick': 200, 'thorough': 2000}
@@ -31,7 +33,69 @@ def plan(tier, seed):
     # the operator / cast grid of C09 in every usage position, both builds
     for word in (2, 3):
         specs.append({'kind': 'grid', 'word': word, 'tier': tier})
+    parts = 4 if tier == 'quick' else 8
+    for p in range(parts):
+        specs.append({'kind': 'templates', 'seed': seed, 'part': p, 'parts': parts, 'words': [2] if tier == 'quick' else [2, 3, 4]})
     return specs
+
+
+class AnyTimelineFault(Monitor):
+    """fault stubs entered on *any* timeline, committed or not (deliberately not rolled back)"""
+    name = 'anyfault'
+
+    def attach(self, vm):
+        self.vm = vm
+        self.stub = {a: n for n, (s, a) in vm.p.labels.items() if s == 'code' and n in FAULT_FLAGS}
+        vm.watch |= set(self.stub)
+        self.ever = set()
+
+    def on_arrive(self, pc, jumped_from):
+        n = self.stub.get(pc)
+        if n is not None:
+            self.ever.add(n)
+
+
+def run_any(lines, args):
+    prog = assemble(lines, args)
+    f = AnyTimelineFault()
+    vm = VM(prog, MAX_STEPS, [f])
+    vm.run()
+    return Outcome(vm), f.ever
+
+
+def tight(res, lc, lu, args, G, case):
+    """the same comparison at the smallest stacks at which the checked build is still fault-free on every timeline it
+    explores: whatever the unchecked build keeps differently in memory (a word it does not give back, a frame laid out
+    differently) becomes output there.  Returns False after a failure."""
+    from .c04 import with_stack
+
+    def clean(stack):
+        o, ever = run_any(with_stack(lc, stack), args)
+        return o, (not ever and o.klass == G.klass and o.stream == G.stream)
+    lo, hi = 0, diff.GENEROUS_STACK
+    while lo + 1 < hi:
+        mid = (lo + hi) // 2
+        if clean(mid)[1]:
+            hi = mid
+        else:
+            lo = mid
+    runner.count(res, 'tight_searches')
+    for stack in (hi, hi + 1, hi + 2, hi + 5):
+        oc, ok = clean(stack)
+        if not ok:
+            runner.count(res, 'tight_checked_not_clean')
+            continue
+        ou, _ = run_any(with_stack(lu, stack), args)
+        runner.count(res, 'tight_pairs_compared')
+        if ou.klass == 'TIMEOUT':
+            runner.count(res, 'vm_timeouts')
+            continue
+        if oc.stream != ou.stream or oc.klass != ou.klass:
+            c = dict(case, stack=stack)
+            runner.fail(res, 'M-DIFF', f'at stack {stack} (smallest fault-free stack of the checked build: {hi}) checked {oc.klass} {oc.out[-60:]!r}{oc.flags} '
+                                       f'!= unchecked {ou.klass} {ou.out[-60:]!r}{ou.flags} ({ou.trap})', c, expected=oc.brief(), observed=ou.brief())
+            return False
+    return True
 
 
 def run_with_guards(lines, args):
@@ -82,56 +146,71 @@ def run_shard(spec):
                 continue
             res['nontrivial'].append(runner.case_id(src, word))
         return res
-    for i in range(spec['count']):
-        s = spec['seed'] * 100003 + i
-        if i % 2 == 0:
-            prog, args = TimeGen(s).program()
-            tag = f'time:{s}'
-        else:
-            prog, args = ProgGen(s, 'deep' if i % 4 == 1 else 'sequential', hostile=0.01).program()
-            tag = f'seq:{s}'
-        src = A.render(prog)
-        for word in common.WORDS_ALL:
-            res['evaluations'] += 1
-            case = diff.case_dict(src, args, word, diff.GENEROUS_STACK, gen=tag)
-            try:
-                lc = env.compile_src(src, word=word, stack=diff.GENEROUS_STACK, unchecked=False)
-                lu = env.compile_src(src, word=word, stack=diff.GENEROUS_STACK, unchecked=True)
-            except CompilerError as e:
-                runner.count(res, 'rejected')
-                continue
-            except Exception as e:  # noqa
-                runner.fail(res, 'M-EXC', f'{type(e).__name__}: {e}', case)
-                continue
-            try:
-                oc, gc = run_with_guards(lc, args)
-                ou, gu = run_with_guards(lu, args)
-            except Exception as e:  # AsmError
-                runner.fail(res, 'M-ASM', str(e), case)
-                continue
-            runner.count(res, 'vm_steps', oc.steps + ou.steps)
-            if oc.klass == 'TIMEOUT' or ou.klass == 'TIMEOUT':
-                runner.count(res, 'vm_timeouts')
-                continue
-            if any(f in FAULT_FLAGS for f in oc.flags) or oc.klass in ('HALT', 'TRAP'):
-                runner.count(res, 'checked_run_faulted_or_undefined')
-                continue
-            runner.count(res, 'pairs_compared')
-            tot = gc.totals()
-            for k, v in tot.items():
-                runner.count(res, 'guard_' + k, v)
-            if gu.totals():
-                runner.fail(res, 'M-DIFF', f'unchecked build still contains executed guard sites {gu.totals()}', case)
-                continue
-            if oc.stream != ou.stream or oc.klass != ou.klass:
-                runner.fail(res, 'M-DIFF', f'checked {oc.klass} {oc.out[:80]!r}{oc.flags} != unchecked {ou.klass} {ou.out[:80]!r}{ou.flags}',
-                            case, expected=oc.brief(), observed=ou.brief())
-                continue
-            if len(lu) >= len(lc):
-                runner.count(res, 'unchecked_not_smaller')
-            if any(k != 'no_overflow' for k in tot) or b'j nonlocal_preempt' in b'\n'.join(lc):
-                res['nontrivial'].append(runner.case_id(src, args, word))
-                if len(res['samples']) < 1:
-                    res['samples'].append({'source': src[:1200], 'args': args, 'word': word, 'guards_executed': tot,
-                                           'timeline': oc.brief()})
+    if spec['kind'] == 'templates':
+        work = [(tag, src, args) for i, (tag, src, args) in enumerate(memprogs.cases(spec['seed'], 0)) if i % spec['parts'] == spec['part']]
+        work = [(tag, src, args, w, True) for tag, src, args in work for w in spec['words']]
+    else:
+        work = []
+        for i in range(spec['count']):
+            s = spec['seed'] * 100003 + i
+            if i % 2 == 0:
+                prog, args = TimeGen(s).program()
+                tag = f'time:{s}'
+            else:
+                prog, args = ProgGen(s, 'deep' if i % 4 == 1 else 'sequential', hostile=0.01).program()
+                tag = f'seq:{s}'
+            src = A.render(prog)
+            for word in common.WORDS_ALL:
+                work.append((tag, src, args, word, (i // 2 + word) % 3 == 0))
+    return run_pairs(res, work)
+
+
+def run_pairs(res, work):
+    from .. import env
+    CompilerError, _ = env.compiler_error_types()
+    for tag, src, args, word, do_tight in work:
+        res['evaluations'] += 1
+        case = diff.case_dict(src, args, word, diff.GENEROUS_STACK, gen=tag)
+        try:
+            lc = env.compile_src(src, word=word, stack=diff.GENEROUS_STACK, unchecked=False)
+            lu = env.compile_src(src, word=word, stack=diff.GENEROUS_STACK, unchecked=True)
+        except CompilerError as e:
+            runner.count(res, 'rejected')
+            continue
+        except Exception as e:  # noqa
+            runner.fail(res, 'M-EXC', f'{type(e).__name__}: {e}', case)
+            continue
+        try:
+            oc, gc = run_with_guards(lc, args)
+            ou, gu = run_with_guards(lu, args)
+        except Exception as e:  # AsmError
+            runner.fail(res, 'M-ASM', str(e), case)
+            continue
+        runner.count(res, 'vm_steps', oc.steps + ou.steps)
+        if oc.klass == 'TIMEOUT' or ou.klass == 'TIMEOUT':
+            runner.count(res, 'vm_timeouts')
+            continue
+        if any(f in FAULT_FLAGS for f in oc.flags) or oc.klass in ('HALT', 'TRAP'):
+            runner.count(res, 'checked_run_faulted_or_undefined')
+            continue
+        runner.count(res, 'pairs_compared')
+        tot = gc.totals()
+        for k, v in tot.items():
+            runner.count(res, 'guard_' + k, v)
+        if gu.totals():
+            runner.fail(res, 'M-DIFF', f'unchecked build still contains executed guard sites {gu.totals()}', case)
+            continue
+        if oc.stream != ou.stream or oc.klass != ou.klass:
+            runner.fail(res, 'M-DIFF', f'checked {oc.klass} {oc.out[:80]!r}{oc.flags} != unchecked {ou.klass} {ou.out[:80]!r}{ou.flags}',
+                        case, expected=oc.brief(), observed=ou.brief())
+            continue
+        if do_tight and not tight(res, lc, lu, args, oc, case):
+            continue
+        if len(lu) >= len(lc):
+            runner.count(res, 'unchecked_not_smaller')
+        if any(k != 'no_overflow' for k in tot) or b'j nonlocal_preempt' in b'\n'.join(lc):
+            res['nontrivial'].append(runner.case_id(src, args, word))
+            if len(res['samples']) < 1:
+                res['samples'].append({'source': src[:1200], 'args': args, 'word': word, 'guards_executed': tot,
+                                       'timeline': oc.brief()})
     return res
